@@ -15,6 +15,7 @@ inductive NEx
   | hopeful          -- len(C.hopeful())
   | seatsLeft        -- E.seatsLeftToFill()
   | lit (n : Int)
+  | sub (a b : NEx)
 deriving DecidableEq, Repr
 
 inductive GEx
@@ -35,6 +36,7 @@ def NEx.eval (s : St α) : NEx → Int
   | .hopeful => (s.hopeful.length : Int)
   | .seatsLeft => s.seatsLeft
   | .lit n => n
+  | .sub a b => a.eval s - b.eval s
 
 def GEx.eval (s : St α) : GEx → Bool
   | .gt a b => decide (a.eval s > b.eval s)
@@ -65,5 +67,15 @@ theorem scotCountComplete_is_program (s : St α) : scotCountComplete s = ifCompl
 theorem qpqCountComplete_is_program (s : St α) : qpqCountComplete s = ifCompleteProg.eval s := by
   unfold qpqCountComplete ifCompleteProg GProg.eval GEx.eval NEx.eval
   by_cases h1 : s.seatsLeft ≤ 0 <;> by_cases h2 : (s.hopeful.length : Int) ≤ s.seatsLeft <;> simp [h1, h2, GProg.eval, GEx.eval, NEx.eval]
+
+/-- `maxDefeat = len(C.hopeful()) - E.seatsLeftToFill()`: the cap on a batch of sure losers (wigm_prf.py, meek.py, mpls.py) -/
+def maxDefeatProg : NEx := .sub .hopeful .seatsLeft
+
+/-- the sure-loser batch of wigm-prf-batch and of meek / warren (`defeat_batch=safe`) is capped by the translated expression -/
+theorem batchDefeatGroups_uses_program [CommRing α] [LinearOrder α] [IsStrictOrderedRing α] (A : Arith α) (s : St α) (surplus : α) :
+    batchDefeatGroups A s surplus =
+      match scanGroups A surplus (maxDefeatProg.eval s) (sortedGroups A surplus (byVote A false s.hopeful)) 0 0 A.zero none with
+      | some g => ((sortedGroups A surplus (byVote A false s.hopeful)).take (g+1)).flatten
+      | none => [] := rfl
 
 end Droop.C01
